@@ -11,11 +11,17 @@
    option was given, directories list at least what they listed, no file loses its content, cwd and root stay.
    Copy of a regular file to a fresh path in an existing directory is proved completely (Memfs/CopyFile.v):
    it succeeds, the destination is a regular file with the source's bytes, owner and mode (the requested
-   mode when a chmod option selects files), its directory lists it, nothing else changes. That the
-   destination receives a copy of every entry of a source DIRECTORY is not yet a theorem. *)
+   mode when a chmod option selects files), its directory lists it, nothing else changes. Copy of a
+   DIRECTORY TREE without links to a fresh path in an existing directory, not following links, is proved on
+   the reference tree (Memfs/CopyDir.v): it succeeds; every entry at j below the source has a copy at j
+   below the destination (a directory with the requested or the source's mode; a regular file with the
+   source's bytes, owner and requested or own mode); nothing else appears at or below the destination; and
+   everything outside it - the source included - is as before. Hypothesis: the names below the source are
+   proper path names (true of every key resolve produces; not yet an invariant theorem). Sources containing
+   links, copies into an existing directory and copies that follow links remain judged, not proved. *)
 From stdpp Require Import gmap.
 From Coq Require Import NArith.
-From RV Require Import Base.Str Path.Helpers Path.Expand Memfs.State Memfs.Ops Memfs.Walk Memfs.WalkOps Memfs.Step Memfs.ContentFacts Memfs.MoveFacts Memfs.Wf Memfs.WfMove Memfs.CopyFacts Memfs.CopyFile.
+From RV Require Import Base.Str Path.Helpers Path.Expand Memfs.State Memfs.Ops Memfs.Walk Memfs.WalkOps Memfs.Step Memfs.ContentFacts Memfs.MoveFacts Memfs.Wf Memfs.WfMove Memfs.CopyFacts Memfs.CopyFile Memfs.CopyDir Memfs.Refine.
 
 Theorem C09_move_validation_frame : forall env m s d e m',
   move_validation env m s d = inr e -> move_op env m s d = Done (m', inr e) -> m' = m.
@@ -98,3 +104,16 @@ Theorem C09_copy_file_fresh : forall env m s d o sp dp db ddir r pd bytes,
     (forall q, q <> dp -> m_data m' !! q = m_data m !! q) /\ m_cwd m' = m_cwd m /\ m_root m' = m_root m.
 Proof. exact copy_file_fresh. Qed.
 Print Assumptions C09_copy_file_fresh.
+
+(* copy of a directory tree without links to a fresh path in an existing directory *)
+Theorem C09_copy_dir_fresh : forall env m s d o sp dp db ddir r pd,
+  WF m -> kinds_ok m -> cp_follow o = false -> resolve env m s = inl sp -> resolve env m d = inl dp ->
+  m_ents m !! sp = Some r -> real_dir r -> dp = db :: ddir -> m_ents m !! dp = None -> m_ents m !! ddir = Some pd -> real_dir pd ->
+  ~ sp `suffix_of` dp -> (forall q, sp `suffix_of` q -> is_Some (m_ents m !! q) -> names_ok q) ->
+  (forall q x, sp `suffix_of` q -> m_ents m !! q = Some x -> e_link x = false) ->
+  exists m', copy_op env m s d o = Done (m', inl tt) /\ WF m' /\ kinds_ok m' /\ m_cwd m' = m_cwd m /\
+    (forall j x, m_ents m !! (j ++ sp) = Some x -> abs_nodes m' !! (j ++ dp) = Some (cnode m o sp dp x)) /\
+    (forall j, m_ents m !! (j ++ sp) = None -> abs_nodes m' !! (j ++ dp) = None) /\
+    (forall k, ~ dp `suffix_of` k -> abs_nodes m' !! k = abs_nodes m !! k).
+Proof. exact copy_dir_fresh. Qed.
+Print Assumptions C09_copy_dir_fresh.
